@@ -195,6 +195,12 @@ def impl_args(case):
 def new_case(rng, fam, n, edges, directed, combo):
     norm, self_emb, use_bias, act, sparse = combo
     triples, kind = gen.random_weights(rng, edges, directed=directed)
+    if rng.random() < 0.15:
+        # the same graph with some rows (all rows when undirected) in units 2^60 times larger: out-weights of order 1e-18.  N(A) is
+        # invariant under such a change of units of a row ('left') / of the whole graph; a node of out-weight 1e-18 is not isolated
+        rows = {i for i in range(n) if rng.random() < 0.5} if (directed and norm == 'left') else set(range(n))
+        triples = [(i, j, w * 2.0 ** -60 if i in rows else w) for (i, j, w) in triples]
+        kind += '_tiny'
     d = rng.randint(1, 4)
     o = rng.randint(1, 3)
     X, _ = make_features(rng, n, d, sparse)
